@@ -293,6 +293,7 @@ func (tst *tsTable) replaceSnapshot(next *snapshot, persisted bool) {
 		tst.snapshot.decRef()
 	}
 	tst.snapshot = next
+	verifSnapshotReplaced(tst, next)
 	if persisted {
 		tst.persistSnapshot(next)
 	}
